@@ -653,11 +653,13 @@ class Body:
         si = ei = None
         # the function's own block first, then nested blocks in source order (a fragment of a loop body)
         for (bo, bc) in all_blocks(toks, self.open, self.close):
+            if start_prefix.strip() == "^" and bo != self.open:
+                break
             spans = stmt_spans(toks, bo, bc)
             si = ei = None
             for k, (s, e) in enumerate(spans):
-                if si is None and [t.text for t in toks[s:s + len(sp)]] == sp:
-                    si = k
+                if si is None and (start_prefix.strip() == "^" or [t.text for t in toks[s:s + len(sp)]] == sp):
+                    si = k     # "^": from the first statement of the function
                 if si is not None and end_prefix.strip() != "$" and [t.text for t in toks[s:s + len(ep)]] == ep:
                     ei = k - 1 if before else k
                     break
